@@ -184,12 +184,17 @@ def join_table(run):
                     "left-suffixed": (lambda m, s=sfx: m["v" + s[0]] > 1),
                     "right-suffixed": (lambda m, s=sfx: m["v" + s[1]] > 1),
                     "both": lambda m: (m.lo > 2) & (m.ro < 5),
+                    "and left-first": lambda m: (m.lo > 2) & (m.ro < 5),
+                    "and right-first": lambda m: (m.ro < 5) & (m.lo > 2),
+                    "and key+right": lambda m: (m.k >= 1) & (m.ro != 3),
+                    "and three": lambda m: (m.ro < 6) & (m.lo > 1) & (m.k < 4),
+                    "or mixed": lambda m: (m.lo > 5) | (m.ro < 2),
                     "ne-right": lambda m: m.ro != 2,
                     "isna-right": lambda m: m.ro.isna(),
                 }
                 for pn, pf in preds_.items():
                     if how == "leftsemi":
-                        if pn in ("right-only-col", "right-suffixed", "both", "ne-right", "isna-right"):
+                        if pn in ("right-only-col", "right-suffixed", "both", "ne-right", "isna-right", "and left-first", "and right-first", "and key+right", "and three", "or mixed"):
                             continue
                         if pn == "left-suffixed":
                             pf = lambda m: m.v > 1
